@@ -507,6 +507,128 @@ def _single_def(iv, l):
     return ds[0] if len(ds) == 1 else None
 
 
+def _str_find_slice(F, fn, iv, site, base, bound_op, is_range):
+    """D4 (std contract): a `str` sliced / split at the byte index returned by `find` on that same string - or one
+    past it when the pattern matched is a one-byte (ASCII) char - is on a char boundary and within bounds, provided
+    the slice is taken under the `Some` arm of that very `find`"""
+    ty = strip_lt(base.get('ty') or base.get('pl', {}).get('ty', '')).lstrip('&')
+    if not (ty == 'str' or ty.startswith('str')):
+        return None
+    root_base = iv.canon(base)
+    if root_base is None:
+        return None
+
+    def bound_sources(o):
+        """-> list of (option local, plus) the usize operand is computed from, or None"""
+        l = op_local(o)
+        seen = 0
+        plus = 0
+        while l is not None and seen < 8:
+            seen += 1
+            d = _single_def(iv, l)
+            if d is None or d[0] != 'assign':
+                return None
+            rv = d[2]['rv']
+            if rv['r'] == 'use' and rv['op']['k'] in ('copy', 'move'):
+                pl = rv['op']['pl']
+                pr = [p for p in pl['p'] if p != '*']
+                if len(pr) == 2 and isinstance(pr[0], dict) and 'dc' in pr[0] and pr[0]['dc'] == 'Some' and isinstance(pr[1], dict) and pr[1].get('f') == 0:
+                    return (pl['l'], plus)
+                if len(pr) == 1 and isinstance(pr[0], dict) and pr[0].get('f') == 0:
+                    l = pl['l']          # `.0` of an AddWithOverflow pair
+                    continue
+                if not pr:
+                    l = pl['l']
+                    continue
+                return None
+            if rv['r'] == 'bin' and rv['bop'].replace('WithOverflow', '') == 'Add':
+                for x, y in ((rv['a'], rv['b']), (rv['b'], rv['a'])):
+                    if y['k'] == 'const' and y.get('int') == '1' and x['k'] in ('copy', 'move'):
+                        plus += 1
+                        l = op_local(x)
+                        break
+                else:
+                    return None
+                continue
+            return None
+        return None
+
+    bounds = []
+    if is_range:
+        d = _single_def(iv, op_local(bound_op)) if op_local(bound_op) is not None else None
+        if d is None or d[0] != 'assign' or d[2]['rv']['r'] != 'agg':
+            return None
+        for o in d[2]['rv']['ops']:
+            bounds.append(o)
+    else:
+        bounds.append(bound_op)
+    if not bounds:
+        return None
+    doms = fn.dominators().get(site.bid, set())
+    whys = []
+    for o in bounds:
+        if o['k'] == 'const':
+            if o.get('int') == '0':
+                continue
+            return None
+        src = bound_sources(o)
+        if src is None or src[1] > 1:
+            return None
+        opt, plus = src
+        dcall = _single_def(iv, opt)
+        if dcall is None or dcall[0] != 'call' or not re.search(r'str::find$|str::rfind$', strip_args(cdef(dcall[2]))):
+            return None
+        fargs = dcall[2]['args']
+        if iv.canon(fargs[0]) != root_base:
+            return None
+        if plus:
+            pat = fargs[1]
+            onebyte = False
+            if pat['k'] == 'const' and 'int' in pat and 0 <= int(pat['int']) < 128:
+                onebyte = True
+            elif pat['k'] == 'const' and re.match(r"^const '.'$", pat.get('s', '') or ''):
+                onebyte = ord(pat['s'][7]) < 128
+            else:
+                # a slice / array of chars: every element must be ASCII
+                l = op_local(pat)
+                hops = 0
+                while l is not None and hops < 6:
+                    hops += 1
+                    dd = _single_def(iv, l)
+                    if dd is None or dd[0] != 'assign':
+                        break
+                    rv = dd[2]['rv']
+                    if rv['r'] == 'use' and rv['op']['k'] == 'const' and 'promoted' in rv['op']:
+                        pv = F.promoted_value(fn, rv['op']['promoted'])
+                        if pv and pv[0] == 'array' and pv[1] and all(isinstance(x, int) and 0 <= x < 128 for x in pv[1]):
+                            onebyte = True
+                        break
+                    if rv['r'] in ('use', 'cast') and rv['op']['k'] in ('copy', 'move'):
+                        l = op_local(rv['op'])
+                    elif rv['r'] == 'ref':
+                        l = rv['pl']['l']
+                    else:
+                        break
+            if not onebyte:
+                return None
+        # under the Some arm of that find
+        ok = False
+        for bid, st in fn.stmts():
+            if st['rv']['r'] == 'discr' and st['rv']['pl']['l'] == opt and not st['rv']['pl']['p'] and not st['lhs']['p']:
+                dl = st['lhs']['l']
+                tt = fn.blocks[bid]['term']
+                if tt['t'] == 'switch' and op_local(tt['on']) == dl:
+                    for val, tgt in tt['targets']:
+                        if int(val) == 1 and tgt in doms:
+                            ok = True
+        if not ok:
+            return None
+        whys.append('find(..)%s' % ('+1 past a one-byte pattern' if plus else ''))
+    if not whys:
+        return None
+    return 'D4: sliced at the byte index returned by str::find on the same string (%s), under its Some arm: a char boundary within bounds' % ', '.join(whys)
+
+
 def auto_discharge(F, site, iv=None):
     """returns reason string if the site provably cannot fire, else None"""
     t = site.term
@@ -553,6 +675,14 @@ def auto_discharge(F, site, iv=None):
     if site.kind == 'call:index' and len(t['args']) >= 2:
         if opty(t['args'][1]).endswith('RangeFull'):
             return 'D1: indexing with the full range `[..]` cannot fail'
+        r = _str_find_slice(F, fn, iv, site, t['args'][0], t['args'][1], is_range=True)
+        if r:
+            return r
+        return None
+    if site.kind == 'call:split_at' and len(t['args']) >= 2:
+        r = _str_find_slice(F, fn, iv, site, t['args'][0], t['args'][1], is_range=False)
+        if r:
+            return r
         return None
     if site.kind == 'call:radix':
         cand = [a for a in t['args'] if a['k'] == 'const' and 'int' in a]
@@ -662,14 +792,16 @@ def check_requires(fn, site, requires, prov=None):
     """requires: list of {'cond': regex on the discriminant provenance, 'edge': '0'|'1'|'otherwise'|'nonzero'}"""
     conds = dominating_conditions(fn, site.bid, prov)
     missing = []
-    for r in requires:
-        ok = False
+    def holds(r):
         for desc, edge in conds:
             if re.search(r['cond'], desc):
                 want = r.get('edge')
                 if want is None or want == edge or (want == 'nonzero' and edge != '0') or (want == '1' and edge == 'otherwise'):
-                    ok = True
-                    break
+                    return True
+        return False
+    for r in requires:
+        # {'any': [alt, ...]}: the same guard written in one of several equivalent ways (a >= b, b <= a, !(a < b), ...)
+        ok = any(holds(a) for a in r['any']) if 'any' in r else holds(r)
         if not ok:
             missing.append(r)
     return missing, conds
